@@ -162,9 +162,12 @@ impl Array {
                 }
             } else {
                 let sum_len = a.dimensions[a.dimensions.len() - a_index];
+                // the dot product of two vectors needs vectors of the same length
+                let is_dot_product = a.dimensions.len() < 2 && b.dimensions.len() < b_index;
                 assert!(
-                    b.dimensions.len() < b_index
-                        || sum_len == b.dimensions[b.dimensions.len() - b_index],
+                    (b.dimensions.len() < b_index
+                        || sum_len == b.dimensions[b.dimensions.len() - b_index])
+                        && (!is_dot_product || sum_len == b.dimensions[0]),
                     "error: the dimensions {:?}, and {:?} are not compatible",
                     a.dimensions,
                     b.dimensions
